@@ -529,6 +529,21 @@ func (p *upath) valueAt(v ssa.Value, idx int) ssa.Value {
 				}
 				break
 			}
+			if !found {
+				// a parameter that left its helper as (part of) the result: the most recent completed call
+				for k := len(p.Frames) - 1; k >= 0 && !found; k-- {
+					fr := p.Frames[k]
+					if fr.Call.Call.StaticCallee() != prm.Parent() || fr.Start > idx {
+						continue
+					}
+					for j, q := range prm.Parent().Params {
+						if q == prm && j < len(fr.Call.Call.Args) {
+							v, idx, found = fr.Call.Call.Args[j], fr.Start-1, true
+						}
+					}
+					break
+				}
+			}
 			if found {
 				continue
 			}
@@ -538,6 +553,22 @@ func (p *upath) valueAt(v ssa.Value, idx int) ssa.Value {
 		if ph, ok := r.(*ssa.Phi); ok {
 			if e := p.phiAt(ph, idx); e != nil {
 				r = e
+			}
+		}
+		if u, ok := r.(*ssa.UnOp); ok && u.Op == token.MUL {
+			// a load from a local cell that does not escape (a result spilled because of a defer): the value
+			// of the last store on the path before the load
+			if cell, isA := u.X.(*ssa.Alloc); isA && !cellEscapes(cell) {
+				at := idx
+				if k := p.indexOf(u); k >= 0 && k <= idx {
+					at = k
+				}
+				for j := at; j >= 0 && j < len(p.Instrs); j-- {
+					if st, isSt := p.Instrs[j].(*ssa.Store); isSt && st.Addr == ssa.Value(cell) {
+						r, idx = st.Val, j
+						break
+					}
+				}
 			}
 		}
 		if r == v {
